@@ -53,6 +53,7 @@ type Engine struct {
 	streams map[*Stream]struct{}
 	token   *dbkit.Semaphore
 	txn     *Transaction
+	trims   uint64
 	tomb    tomb.Tomb
 	mutex   sync.Mutex
 }
@@ -239,7 +240,7 @@ func (e *Engine) Commit(txn *Transaction) error {
 	}
 
 	// clean oplog
-	txn.Clean(e.opts.MinOplogSize, e.opts.MaxOplogSize, e.opts.MinOplogAge, e.opts.MaxOplogAge)
+	trimmed := txn.Clean(e.opts.MinOplogSize, e.opts.MaxOplogSize, e.opts.MinOplogAge, e.opts.MaxOplogAge)
 
 	// write catalog
 	err := e.store.Store(txn.Catalog())
@@ -249,6 +250,11 @@ func (e *Engine) Commit(txn *Transaction) error {
 
 	// set new catalog
 	e.catalog = txn.Catalog()
+
+	// count trims so that streams without a position can detect lost events
+	if trimmed > 0 {
+		e.trims++
+	}
 
 	// broadcast change
 	for stream := range e.streams {
@@ -363,13 +369,14 @@ func (e *Engine) Watch(handle Handle, pipeline bsonkit.List, resumeAfter, startA
 		last:     last,
 		pipeline: pipeline,
 		signal:   make(chan struct{}, 1),
+		trims:    e.trims,
 	}
 
 	// set oplog method
-	stream.oplog = func() *bsonkit.Set {
+	stream.oplog = func() (*bsonkit.Set, uint64) {
 		e.mutex.Lock()
 		defer e.mutex.Unlock()
-		return e.catalog.Namespaces[Oplog].Documents
+		return e.catalog.Namespaces[Oplog].Documents, e.trims
 	}
 
 	// set cancel method
